@@ -1,5 +1,7 @@
 //! Replays of failing histories / schedules against the REAL cachelito crates.
 //! Usage: cachelito-replay <scenario>      exit 0 = property held, exit 1 = violated (prints why)
+//!        cachelito-replay --search ...     bounded witness search on the real engines (search.rs)
+//!        cachelito-replay --history FILE   replay a history written by --search under the same oracle
 //! Scenarios are the concrete inputs named in /verif/known_findings.txt and in replay files
 //! written by bin/check. Nothing here is a model: every scenario drives /repo's own code.
 use cachelito_core::{AsyncGlobalCache, CacheEntry, CacheStats, EvictionPolicy, GlobalCache, ThreadLocalCache};
@@ -10,6 +12,7 @@ use std::cell::RefCell;
 use std::collections::{HashMap, VecDeque};
 
 mod history;
+mod search;
 
 thread_local! {
     static TL_MAP: RefCell<HashMap<String, CacheEntry<String>>> = RefCell::new(HashMap::new());
@@ -178,8 +181,18 @@ fn run(name: &str) -> Result<(), String> {
 
 fn main() {
     let args: Vec<String> = std::env::args().collect();
-    if args.len() >= 3 && args[1] == "--history" {
-        std::process::exit(history::run_file(&args[2]));
+    if args.iter().any(|a| a == "--search") {
+        std::process::exit(search::main_search(&args[1..]));
+    }
+    if let Some(i) = args.iter().position(|a| a == "--history") {
+        let selftest = args.iter().any(|a| a == "--selftest-oracle");
+        match args.get(i + 1) {
+            Some(f) => std::process::exit(history::run_file(f, selftest)),
+            None => {
+                eprintln!("usage: cachelito-replay --history FILE");
+                std::process::exit(2);
+            }
+        }
     }
     let mut rc = 0;
     for name in &args[1..] {
